@@ -10,3 +10,17 @@ fn dense_linear_entries() {
     let k = dense_from_fn(&x, &KernelMethod::Linear);
     for i in 0..2 { for j in 0..2 { assert!(k[(i, j)] == (v[i] as i32 * v[j] as i32) as f32); } }
 }
+
+#[kani::proof]
+#[kani::unwind(6)]
+#[kani::stub(alloc::fmt::format, fmt_stub)]
+fn dense_inner_views_agree() {
+    let v: [i8; 4] = kani::any(); for i in 0..4 { kani::assume(v[i] >= -8 && v[i] <= 8); }
+    let m = Array2::from_shape_vec((2, 2), vec![v[0] as f32, v[1] as f32, v[2] as f32, v[3] as f32]).unwrap();
+    let k: Kernel<f32> = Kernel { inner: KernelInner::Dense(m), method: KernelMethod::Linear };
+    assert!(k.size() == 2);
+    let s = k.sum(); assert!(s[0] == (v[0] as i32 + v[1] as i32) as f32 && s[1] == (v[2] as i32 + v[3] as i32) as f32);
+    let c = k.column(1); assert!(c[0] == v[1] as f32 && c[1] == v[3] as f32);
+    let d = k.diagonal(); assert!(d[0] == v[0] as f32 && d[1] == v[3] as f32);
+    let u = k.to_upper_triangle(); assert!(u.len() == 1 && u[0] == v[1] as f32);
+}
